@@ -22,7 +22,7 @@ BUILD_VERDICTS = ("blackbox_definition_changed",)  # the registry is part of thi
 ANCHORS = ["utils:lint"]
 
 CORRUPTIONS = ["no_type", "bad_type", "fanin_on_source", "second_driver", "bbout_second_load", "bbout_nonbuf_load", "dotted_name", "pin_deleted", "pin_retyped", "undriven_gate", "unloaded_node", "single_input", "fanin_on_x", "fanin_on_bbout", "undriven_pin", "pin_direction_swapped", "two_dots_known_instance", "two_dots_unknown_instance", "stray_bbout_two_loads", "stray_bbout_gate_load"]
-PRODUCERS = ["verilog", "fast_verilog", "bench", "adder", "mux", "popcount", "add_subcircuit", "fill_blackbox", "limit_fanin", "limit_fanout", "ternary", "acyclic_unroll", "insert_registers", "unroll", "sequential_unroll", "sensitization_transform", "sensitivity_transform", "miter_tied", "copy", "relabel", "strip_blackboxes_then_nothing", "supergates", "remove_unloaded", "strip_io", "strip_inputs", "strip_outputs", "add_blackbox_list", "bench_roundtrip", "verilog_roundtrip", "transform_pipeline"]
+PRODUCERS = ["verilog", "fast_verilog", "bench", "adder", "mux", "popcount", "add_subcircuit", "fill_blackbox", "limit_fanin", "limit_fanout", "ternary", "acyclic_unroll", "insert_registers", "unroll", "sequential_unroll", "sensitization_transform", "sensitivity_transform", "miter_tied", "copy", "relabel", "strip_blackboxes_then_nothing", "supergates", "remove_unloaded", "strip_io", "strip_inputs", "strip_outputs", "add_blackbox_list", "bench_roundtrip", "verilog_roundtrip", "transform_pipeline", "onto_constant"]
 
 
 def gen(rng, ctx):
@@ -247,6 +247,16 @@ def produce(case, ctx):
         return [cg.io.verilog_to_circuit(case["text"], nl["name"], blackboxes=bbs, fast=prod == "fast_verilog")]
     if prod == "bench":
         return [cg.io.bench_to_circuit(case["text"], "bt")]
+    if prod in ("adder", "popcount") and rng.random() < 0.5:
+        # the caller edits the blocks it was handed earlier (an enable input on the carry gate); blocks generated
+        # afterwards must not be built from those edited objects
+        for blk in (cg.logic.half_adder(), cg.logic.full_adder()):
+            multi = sorted(n for n in blk.nodes() if blk.type(n) in G.GATESN)
+            blk.add("zz_en", "input")
+            if multi:
+                blk.connect("zz_en", multi[0])
+            blk.add("zz_probe", "buf", output=True)
+        ctx.count("logic_blocks_edited_before_generation")
     if prod == "adder":
         return [cg.logic.adder(case["w"], rng.random() < 0.5, rng.random() < 0.5), cg.logic.half_adder(), cg.logic.full_adder()]
     if prod == "mux":
@@ -343,6 +353,24 @@ def produce(case, ctx):
     if prod == "remove_unloaded":
         p = c.copy()
         p.remove_unloaded()
+        return [p]
+    if prod == "onto_constant":
+        # connections aimed at tie-offs of every kind: refused (ValueError) or the result must be well formed
+        p = c.copy()
+        kind = rng.choice(["0", "1", "x"])
+        p.add("zz_tie", kind, output=True)
+        src = sorted(n for n in p.nodes() if p.type(n) in G.ALL_GATES + ["input"])[0]
+        route = rng.choice(["connect", "add_fanout", "add_subcircuit"])
+        ctx.count(f"onto_constant:{kind}:{route}")
+        try:
+            if route == "connect":
+                p.connect(src, "zz_tie")
+            elif route == "add_fanout":
+                p.add("zz_drv", "buf", fanin=src, fanout="zz_tie", output=True)
+            else:
+                p.add_subcircuit(kid, "I", {sorted(kid.outputs())[0]: "zz_tie"})
+        except ValueError:
+            ctx.count("onto_constant:refused")
         return [p]
     if prod == "bench_roundtrip":
         # the writer's text must read back as a well-formed circuit (write -> read pipeline)
